@@ -35,6 +35,14 @@ def to_script(beh, sid, K, Q, cids):
         while j < n and not states[j]["proj"]["stable"]:
             j += 1
         if j >= n:
+            # the behaviour ends inside this action's internal steps (e.g. a witness that stops at its goal):
+            # still perform the action, without a predicted state; the epilogue judges the outcome
+            s0 = states[i]
+            steps.append({"act": a, "res": s0["lastRes"] if a["name"] not in ("Apply", "Fail", "Return") else "",
+                          "st": s0["st"], "ipfs": s0["ipfs"], "healthy": False, "noexp": True,
+                          "proj": {"status": {}, "statusall": {}, "pending": [], "applied": [], "stable": False, "quiescent": False}})
+            if s0["lastRes"] == "fullq":
+                tags.add("queue-full")
             break
         # stable state j must be followed by an env action or be the end
         s = states[j]
